@@ -92,6 +92,15 @@ check("C03", "DESIGN.md 5/C03",
       "Trusted: the linear-algebra lemma (checked numerically on every replayed case: a disagreement between lemma and numpy is a "
       "machinery error), numpy.linalg.matrix_rank on small integer matrices.")
 
+check("C10", "DESIGN.md 5/C10",
+      "TLA+ model Materialize.tla: per-term column ranges derived from the structure (SlicesOK model-checked in TLC); exhaustive replay "
+      "querying every metadata accessor of the real spec",
+      "TLC proves on every enumerated case that per-term ranges are contiguous, disjoint, in structure order and cover all columns; for "
+      "each case the real ModelSpec is queried (column_names, column_indices, term_indices, term_slices, get_slice, get_term_indices, "
+      "get_column_indices, variable_indices, get_variable_indices, subset) by Term object, by printed form and by column name and compared "
+      "with the model's names and ranges; subset specs are rebuilt and compared with the parent's columns.",
+      "Trusted: gamma/alpha of the materializer family. A subset is rebuilt with the parent's dropped rows supplied (rows are C06's business).")
+
 NOT_YET = "check not yet built in this round (planned; see DESIGN.md section 5)"
 
 
